@@ -114,10 +114,17 @@ RECVS = ["&self", "&mut self", "self"]
 
 
 class Meth:
-    def __init__(self, name, recv, args=(), ret=None):
+    def __init__(self, name, recv, args=(), ret=None, custom=False):
         self.name, self.recv, self.args, self.ret = name, recv, [list(a) for a in args], ret
+        # custom: the C side of the method is hand-written with #[custom_impl] (same C argument / return types as the Rust
+        # signature, default bodies); every edit of the signature is an edit of the hand-written C signature
+        self.custom = custom
 
     def render(self):
+        if self.custom:
+            cargs = "".join(" %s: %s," % (n, t) for n, t in self.args)
+            sig = "fn %s(%s%s)%s;" % (self.name, self.recv, "".join(", %s: %s" % (n, t) for n, t in self.args), "" if self.ret is None else " -> " + self.ret)
+            return "#[custom_impl({%s }, %s, { }, { }, { },)]\n    %s" % (cargs, self.ret or "()", sig)
         is_ref_ret = self.ret is not None and self.ret.startswith("&")
         recv, ret, lt = self.recv, self.ret, ""
         if is_ref_ret:
@@ -229,6 +236,8 @@ BASES = [
                           group=("Grp", ["Ta"], ["Tb"]))),
     ("boxed", True, Def([Trait("Tr", [Meth("m0", "&mut self", [("a", "CBox<'static, u32>")], "u32"),
                                       Meth("m1", "&self", [], "CBox<'static, u32>")])], main="Tr")),
+    ("custom", True, Def([Trait("Tr", [Meth("m0", "&self", [("a", "u32")], "u32", custom=True),
+                                       Meth("m1", "&self", [("a", "u64")], "u64")])], main="Tr")),
     ("super_send", False, one("m0", "&self", [("a", "u64")], "u64", supers="Send")),
     ("grp5", False, Def([simple_trait("Ta", "a0"), simple_trait("Tb", "b0"), simple_trait("Tc", "c0"),
                          simple_trait("Td", "d0"), simple_trait("Te", "e0")],
